@@ -10,6 +10,10 @@ use super::world::*;
 pub enum Role {
     Data,
     Cname,
+    /// signed DNAME that redirects the query name
+    Dname,
+    /// the unsigned CNAME synthesised from a DNAME (RFC 6672 §3.1)
+    SynthCname,
     Soa,
     /// NSEC at the query name (NODATA), or covering an empty non-terminal
     NsecMatch,
@@ -29,10 +33,10 @@ pub enum Role {
 impl Role {
     /// Dropping a set with this role leaves the proof incomplete by the RFCs.
     pub fn necessary(self) -> bool {
-        !matches!(self, Role::Soa | Role::N3CeMatchApex | Role::Extra)
+        !matches!(self, Role::Soa | Role::N3CeMatchApex | Role::Extra | Role::SynthCname)
     }
     pub fn is_proof(self) -> bool {
-        !matches!(self, Role::Data | Role::Cname | Role::Soa | Role::Extra)
+        !matches!(self, Role::Data | Role::Cname | Role::Dname | Role::SynthCname | Role::Soa | Role::Extra)
     }
 }
 
@@ -147,6 +151,38 @@ impl Resp {
     }
 }
 
+/// The DNAME-owning node strictly above `name` inside the zone, if any.
+pub fn dname_above<'a>(z: &'a Zone, name: &[u8]) -> Option<(Nm, &'a Node)> {
+    let mut cur = parent(name)?;
+    while ends_with(&cur, &z.apex) {
+        if let Some(n) = z.node(&cur) {
+            if n.rrsets.contains_key(&T_DNAME) {
+                return Some((cur, n));
+            }
+        }
+        cur = parent(&cur)?;
+    }
+    None
+}
+
+/// RFC 6672 §2.2: replace the suffix `owner` of `name` by `target`.
+pub fn apply_dname(name: &[u8], owner: &[u8], target: &[u8]) -> Option<Nm> {
+    let keep = label_count(name) - label_count(owner);
+    let mut out: Nm = vec![];
+    let mut p = 0;
+    for _ in 0..keep {
+        let l = name[p] as usize;
+        out.extend_from_slice(&name[p..p + 1 + l]);
+        p += 1 + l;
+    }
+    out.extend_from_slice(target);
+    if out.len() > 255 {
+        None
+    } else {
+        Some(out)
+    }
+}
+
 fn cname_target(rr: &Rec) -> Nm {
     rr.rdata.clone()
 }
@@ -190,6 +226,17 @@ pub fn resolve(w: &World, qname: &[u8], qtype: u16) -> Resp {
                 r.high_iter = true;
             }
             up = w.zones[i].parent;
+        }
+        // DNAME at a proper ancestor inside the zone
+        if let Some((owner, dn)) = dname_above(z, &name) {
+            if let Some(target) = apply_dname(&name, &owner, &dn.rrsets[&T_DNAME][0].rdata) {
+                r.add_node_set(0, z, dn, T_DNAME, None, Role::Dname);
+                let synth = Rec::new(&name, T_CNAME, dn.rrsets[&T_DNAME][0].ttl, target.clone());
+                r.add(0, z.idx, std::slice::from_ref(&synth), &[], None, Role::SynthCname);
+                r.kinds.push("dname");
+                name = target;
+                continue;
+            }
         }
         let node = z.node(&name);
         match node {
@@ -349,6 +396,9 @@ pub fn lie(w: &World, zi: usize, variant: usize) -> Option<(Nm, u16, Resp, &'sta
         n
     };
     let www = sub("www");
+    if variant >= 14 {
+        return dname_lie(w, zi, variant - 14, r);
+    }
     if variant >= 10 {
         return replayed_wildcard_nsec(w, zi, variant - 10, r);
     }
@@ -533,4 +583,66 @@ fn replayed_wildcard_nsec(w: &World, zi: usize, variant: usize, mut r: Resp) -> 
         r.add(1, z.idx, rr, sigs, Some(&new_owner), Role::NsecCoverQname);
     }
     Some((q, T_A, r, label))
+}
+
+/// Answers below `dn.<apex> DNAME ent.<apex>` in which the unsigned CNAME that
+/// accompanies the signed DNAME is not the one RFC 6672 §3.1 prescribes (or
+/// the DNAME itself is not authentic). The genuine target RRset
+/// (`a.ent.<apex> A`, signed) is always included, so the validator's own
+/// chase through the DNAME finds an answer; the forged CNAME is an RRset of
+/// the answer section that no signature covers.
+///  0: target is a same-depth sibling below the DNAME target (b.ent)
+///  1: target is deeper below the DNAME target (a.b.ent)
+///  2: target leaves the DNAME target (x.wild)
+///  3: an unsigned CNAME whose owner is not below the DNAME owner (query for it)
+///  4: the genuine synthesised CNAME, but the DNAME carries no RRSIG
+///  5: sibling target and the sibling's signed RRset added as well
+///  6: genuine CNAME plus a second, forged CNAME at the same owner
+pub fn dname_lie(w: &World, zi: usize, variant: usize, mut r: Resp) -> Option<(Nm, u16, Resp, &'static str)> {
+    let z = &w.zones[zi];
+    let sub = |l: &str| {
+        let mut n = z.apex.clone();
+        for x in l.split('.').rev() {
+            n = prepend(x.as_bytes(), &n);
+        }
+        n
+    };
+    let dn_owner = sub("dn");
+    let dn = z.node(&dn_owner)?;
+    dn.rrsets.get(&T_DNAME)?;
+    let q = sub("a.dn");
+    let real = sub("a.ent");
+    let real_node = z.node(&real)?;
+    let v = variant % 7;
+    let (cname_owner, cname_target, label): (Nm, Nm, &'static str) = match v {
+        0 | 5 => (q.clone(), sub("b.ent"), "lie-dname-cname-sibling-target"),
+        1 => (q.clone(), sub("a.b.ent"), "lie-dname-cname-deeper-target"),
+        2 => (q.clone(), sub("x.wild"), "lie-dname-cname-target-outside"),
+        3 => (sub("zz"), real.clone(), "lie-dname-cname-owner-not-below-dname"),
+        4 => (q.clone(), real.clone(), "lie-dname-without-signature"),
+        _ => (q.clone(), sub("b.ent"), "lie-dname-second-forged-cname"),
+    };
+    let ttl = dn.rrsets[&T_DNAME][0].ttl;
+    let empty: Vec<Rec> = vec![];
+    if v == 4 {
+        r.add(0, z.idx, &dn.rrsets[&T_DNAME], &empty, None, Role::Dname);
+    } else {
+        r.add_node_set(0, z, dn, T_DNAME, None, Role::Dname);
+    }
+    let mut cn = vec![Rec::new(&cname_owner, T_CNAME, ttl, cname_target.clone())];
+    if v == 6 {
+        cn.insert(0, Rec::new(&cname_owner, T_CNAME, ttl, real.clone()));
+    }
+    r.add(0, z.idx, &cn, &empty, None, Role::SynthCname);
+    r.add_node_set(0, z, real_node, T_A, None, Role::Data);
+    if v == 5 {
+        r.add_node_set(0, z, z.node(&cname_target)?, T_A, None, Role::Extra);
+    }
+    if v == 2 {
+        if let Some(n) = z.node(&cname_target) {
+            r.add_node_set(0, z, n, T_A, None, Role::Extra);
+        }
+    }
+    let qname = if v == 3 { cname_owner } else { q };
+    Some((qname, T_A, r, label))
 }
